@@ -205,14 +205,25 @@ def gen_gfa1(rng, k):
             # contained must fit: whole b aligned inside a
             if lb > la:
                 a, b, la, lb = b, a, lb, la
-            pos = rng.randint(0, la - lb)
-            ov = "%dM" % lb
+            if rng.random() < 0.5 and lb >= 3 and la > lb:
+                # whole contained segment aligned with insertions / deletions (query length == lb)
+                m1 = rng.randint(1, lb - 2)
+                ins = rng.randint(0, lb - m1 - 1)
+                m2 = lb - m1 - ins
+                dele = rng.randint(0, min(2, la - (m1 + m2)))
+                ov = "%dM" % m1 + ("%dI" % ins if ins else "") + ("%dD" % dele if dele else "") + "%dM" % m2
+                pos = rng.randint(0, la - (m1 + m2 + dele))
+            else:
+                pos = rng.randint(0, la - lb)
+                ov = "%dM" % lb
         else:
             pos = rng.randint(0, 9)
             ov = gen_cigar(rng, rng.choice(["star", "match"]), la, lb)
         tags = []
         if rng.random() < k.get("p_link_id", 0.15) and spare:
             tags.append("ID:Z:%s" % spare.pop())
+        if rng.random() < k.get("p_counts", 0.2):
+            tags.append("%s:i:%d" % (rng.choice(["RC", "FC", "KC"]), rng.randint(0, 200)))
         tags += gen_tags(rng, k)
         C.append("\t".join(["C", a, rng.choice("+-"), b, rng.choice("+-"), str(pos), ov] + tags))
     # paths: walks over links
